@@ -112,6 +112,24 @@ def frame_integrity(ck, rule, modules=("src.parsers.cmap_reader", "src.parsers.b
                                  "rows of the file no longer reach the molecule one for one - two labels at the same coordinate, "
                                  "an id listed twice in the filter, or rows of *another* molecule decide what a molecule looks like",
                                  found=ast.unparse(node)[:140], required="read_csv -> [isin filter on the id column] -> groupby")
+    # a column replaced by a freshly built Series: pandas lines it up with the frame by *row label*, and after the id filter the
+    # frame still carries the labels of the whole file - rows get another row's value or NaN
+    for f in fns:
+        for node in ast.walk(f.node):
+            series = []
+            if isinstance(node, ast.Call) and isinstance(node.func, ast.Attribute) and node.func.attr == "assign":
+                series = [k.value for k in node.keywords if k.arg]
+            elif isinstance(node, ast.Assign) and len(node.targets) == 1 and isinstance(node.targets[0], ast.Subscript):
+                series = [node.value]
+            for v in series:
+                if isinstance(v, ast.Call) and ast.unparse(v.func).split(".")[-1] == "Series" and \
+                        not any(k.arg == "index" for k in v.keywords) and len(v.args) < 2:
+                    hit = True
+                    ck.violation(rule, short(f) + ":column<-Series", where(f, node),
+                                 "a column of the table is replaced by a Series built without the frame's index: pandas aligns by row "
+                                 "label, and a table that was filtered by id keeps the labels of the full file - the coordinates of the "
+                                 "selected molecules are taken from other rows (or become NaN)", found=ast.unparse(node)[:160],
+                                 required="assign the array itself, or Series(..., index=<frame>.index)")
     # the call that reads the table: with names= given, every non-comment line of the file is a data row - header=<n>, skiprows=,
     # nrows=, skipfooter= ... take rows away before any molecule is looked at
     n_csv = 0
@@ -224,6 +242,17 @@ def header_driven_selection(ck, rule):
         w = where(fn, pa.node)
         if names is None or use is None:
             raise AnalysisError(f"{w}: read_csv without names= / usecols=: the column selection is not recognised: {T.show(calls[0])[:160]}")
+        # the table is tab-separated: a cell may be empty or hold a blank (extra columns of real files do); splitting the rows on
+        # runs of white space shifts every later field of such a row by one
+        sep = kw.get("delimiter", kw.get("sep"))
+        if sep is None:
+            ck.violation(rule, short(fn) + ":separator", w, "read_csv is called without a field separator: the default is the comma",
+                         found=T.show(calls[0])[:160], required="delimiter='\\t'")
+        elif sep[0] == "c" and isinstance(sep[1], str):
+            ck.judge(sep[1] == "\t", rule, short(fn) + ":separator", w, "rows are split on the tab, the separator of the BNX/CMAP/XMAP family "
+                     "(an empty cell or a blank inside a cell does not move the later fields)", found=repr(sep[1]), required=repr("\t"))
+        else:
+            raise AnalysisError(f"{w}: field separator of read_csv is not a literal: {T.show(sep)[:80]}")
         names_from_header = file_p in T.subterms(names) and cols_p not in T.subterms(names)
         while use[0] == "call" and use[1] in ("list", "tuple") and len(use[2]) == 1:
             use = use[2][0]
@@ -285,6 +314,14 @@ def run(ck):
     column_names(ck, "C17.8")
     frame_integrity(ck, "C17.9")
     header_driven_selection(ck, "C17.10")
+    ck.clause("C17.11", "the id filter is read once: the readers' signature admits any Iterable[int], and an iterator that a helper has "
+                        "already walked (to warn about unknown ids, to count them) selects nothing in the filter that follows")
+    from ..rules.iters import run_iterator_rule as _rir
+    rfns = [f for f in p.nontest_functions() if f.module.name == "src.parsers.cmap_reader" and not f.is_lambda]
+    _rir(ck, "C17.11", rfns, iterable_params=True)
+    ck.floor("C17.11 functions of the CMAP reader examined", len(rfns), 5)
+    if not any(o.rule == "C17.11" and o.status == "VIOLATION" for o in ck.obligations):
+        ck.ok("C17.11", "CmapReader:id-filter-read-once", "src/parsers/cmap_reader.py", f"{len(rfns)} functions: no Iterable parameter is walked twice")
     cr = p.find_class("CmapReader")
     from ..rules.common import cmap_reader_methods
     read, parse = cmap_reader_methods(ck)
